@@ -309,8 +309,8 @@ impl Prop for C05 {
 		{
 			let mut gi = 0usize;
 			for n in gen::huge_sizes(tier) {
-				let x = "A".repeat(n);
-				let y = "B".repeat(n / 2 + 7);
+				let x = gen::filler(n);
+				let y = gen::filler(n / 2 + 7).to_uppercase();
 				// (a buffer whose ONLY large part is the component being replaced: afterwards almost all of its
 				// capacity is unused)
 				let inits = ["s://u@h:1/p?q#f".to_string(), format!("s://{x}/{x}?{x}#{x}"), "s:?#".to_string(), format!("s://h/p?{x}#frag"), format!("s://h/{x}?q#frag"), format!("s://{x}/p?q#frag"), format!("s://h/p?q#{x}")];
@@ -318,7 +318,7 @@ impl Prop for C05 {
 					SetOp::Path(format!("/{x}")), SetOp::Path(format!("/{y}")), SetOp::Path("/p".into()), SetOp::Path(String::new()),
 					SetOp::Query(Some(x.clone())), SetOp::Query(Some(y.clone())), SetOp::Query(Some("r".into())), SetOp::Query(None),
 					SetOp::Fragment(Some(x.clone())), SetOp::Fragment(Some("r".into())), SetOp::Fragment(None),
-					SetOp::Authority(Some(x.clone())), SetOp::Authority(Some(format!("{y}@{x}:{}", "1".repeat(n / 3)))), SetOp::Authority(Some("g".into())), SetOp::Authority(None),
+					SetOp::Authority(Some(x.clone())), SetOp::Authority(Some(format!("{y}@{x}:{}", gen::digits(n / 3)))), SetOp::Authority(Some("g".into())), SetOp::Authority(None),
 					SetOp::Scheme(Some("x".into())),
 				];
 				for initial in &inits {
@@ -368,7 +368,7 @@ impl Prop for C05 {
 			if i % nshards != shard {
 				continue;
 			}
-			let x = "x".repeat(n);
+			let x = gen::filler(n);
 			let u = "_".repeat(n);
 			for (k, (initial, op)) in [
 				(format!("s{x}://h//b/c?q#f"), SetOp::Authority(None)),
@@ -393,7 +393,7 @@ impl Prop for C05 {
 				if n % nshards != shard {
 					continue;
 				}
-				let x = "x".repeat(n);
+				let x = gen::filler(n);
 				let (initial, op) = match n % 4 {
 					0 => (format!("s://h/p?q#{x}"), SetOp::Query(Some("longer-query".into()))),
 					1 => (format!("s://h/p?{x}#f"), SetOp::Path("/a/longer/path".into())),
@@ -409,7 +409,7 @@ impl Prop for C05 {
 			for base in [4096usize, 8192, 10_240, 16_384, 20_480, 32_768, 65_536] {
 				for d in 0..3usize {
 					let n = base + d - 1;
-					let x = "x".repeat(n);
+					let x = gen::filler(n);
 					for (k, (initial, op)) in [
 						(format!("s://h/p?q#{x}"), SetOp::Query(Some("longer-query".into()))),
 						(format!("s://h/p?{x}#f"), SetOp::Path("/a/longer/path".into())),
